@@ -109,6 +109,9 @@ func (n *Cache) Remove(key uint64) {
 	n.cache.Remove(key)
 }
 
+// MaxLease is the longest a delegation is kept, whatever TTLs the parent sent.
+const MaxLease = maximumTTL
+
 const (
 	maximumTTL = 12 * time.Hour
 	defaultCap = 1024 * 256
